@@ -235,7 +235,13 @@ func (r *Results) Close() error {
 		r.cancel()
 		<-r.done
 
+		// A query whose caller context was canceled before Close decided its
+		// terminal state is a canceled query, exactly as when Next observes
+		// the cancellation: it must not be mistaken for a complete one.
 		err := r.joinedErrs()
+		if cerr := r.callerCtx.Err(); cerr != nil {
+			err = fmt.Errorf("query canceled: %w", cerr)
+		}
 		r.mu.Lock()
 		if !r.finalized {
 			r.finalized = true
